@@ -26,6 +26,7 @@ def main():
     wt = os.path.join(scratch, 'repo')
     evid = os.path.join(scratch, 'evidence')
     subprocess.check_call(['git', '-C', '/repo', 'worktree', 'add', '--detach', '-q', wt, 'HEAD'])
+    head = subprocess.check_output(['git', '-C', wt, 'rev-parse', '--short', 'HEAD'], text=True).strip()
     out = {}
     try:
         for sid in ids:
@@ -51,9 +52,16 @@ def main():
     finally:
         subprocess.call(['git', '-C', '/repo', 'worktree', 'remove', '--force', wt])
         shutil.rmtree(scratch, ignore_errors=True)
+    sw = os.path.join(ROOT, 'seeded', 'SWEEP.json')
     if not args:
-        head = subprocess.check_output(['git', '-C', '/repo', 'rev-parse', '--short', 'HEAD'], text=True).strip()
-        json.dump({'repo_head': head, 'results': out}, open(os.path.join(ROOT, 'seeded', 'SWEEP.json'), 'w'), indent=1)
+        json.dump({'repo_head': head, 'results': out}, open(sw, 'w'), indent=1)
+    elif os.path.exists(sw):
+        # a partial sweep updates the entries it ran (each entry then records the /repo head it was run against)
+        d = json.load(open(sw))
+        for k, v in out.items():
+            v['repo_head'] = head
+            d['results'][k] = v
+        json.dump(d, open(sw, 'w'), indent=1)
     bad = [k for k, v in out.items() if v['result'] not in ('caught', 'patch-does-not-apply')]
     print('SWEEP %d changes, %d caught, %d not applicable any more, missed: %s' % (
         len(out), len([1 for v in out.values() if v['result'] == 'caught']),
